@@ -57,7 +57,40 @@ func runC15(c *core.Ctx) {
 		}
 		return sc == h || sc.Origin() == h
 	}
-	readHelpers := map[string]bool{"runRead": true, "runReadWithCancel": true, "runReadBlobReader": true, "runReadSequential": true, "runReadConcurrent": true}
+	// the first-success helpers: the two read policies (found by role) and every
+	// package-level function of ociunify that reaches one of them
+	readHelpers := map[string]bool{}
+	readFns := map[*ssa.Function]bool{}
+	for _, k := range []string{"ociunify.runReadSequential", "ociunify.runReadConcurrent", "ociunify.runReadWithCancel"} {
+		if f := M.Fn(k); f != nil {
+			readFns[f] = true
+		}
+	}
+	for changed := true; changed; {
+		changed = false
+		for _, f := range c.P.ModuleFunctions("ociunify") {
+			if f.Parent() != nil || f.Signature.Recv() != nil || isInstance(f) || readFns[f] || f == both || f == br {
+				continue
+			}
+			for _, ci := range facts.CallsIn(f) {
+				sc := ci.Common().StaticCallee()
+				if sc == nil {
+					continue
+				}
+				if o := sc.Origin(); o != nil {
+					sc = o
+				}
+				if readFns[sc] {
+					readFns[f] = true
+					changed = true
+					break
+				}
+			}
+		}
+	}
+	for f := range readFns {
+		readHelpers[f.Name()] = true
+	}
 	calleeName := func(ci ssa.CallInstruction) string {
 		sc := ci.Common().StaticCallee()
 		if sc == nil {
@@ -470,53 +503,63 @@ func mergeIterForgiveness(c *core.Ctx, rule string) {
 	}
 	c.Analysed("ociunify.mergeIter")
 	n := 0
-	for _, b := range mi.Blocks {
-		for _, in := range b.Instrs {
-			ph, ok := in.(*ssa.Phi)
-			if !ok || ph.Type().String() != "error" {
-				continue
-			}
-			for i, e := range ph.Edges {
-				if !facts.IsNilConst(e) {
+	// mergeIter and the private helpers the error handling may have moved to
+	var scope []*ssa.Function
+	for _, f := range withHelpers(mi) {
+		if f.Parent() == nil {
+			scope = append(scope, f)
+		}
+	}
+	for _, sf := range scope {
+		for _, b := range sf.Blocks {
+			for _, in := range b.Instrs {
+				ph, ok := in.(*ssa.Phi)
+				if !ok || ph.Type().String() != "error" {
 					continue
 				}
-				// the other incoming value(s): the error variable being cleared
-				var others []ssa.Value
-				for j, e2 := range ph.Edges {
-					if j != i && !facts.IsNilConst(e2) {
-						others = append(others, e2)
+				for i, e := range ph.Edges {
+					if !facts.IsNilConst(e) {
+						continue
 					}
-				}
-				pred := b.Preds[i]
-				var forgiven ssa.Value
-				for _, cd := range facts.CondsAt(pred) {
-					if call, ok := cd.V.(*ssa.Call); ok && cd.Pos && facts.CalleeName(&call.Call) == "errors.Is" {
-						if errGlobalOf(call.Call.Args[1]) == "ErrNameUnknown" {
-							forgiven = call.Call.Args[0]
+					// the other incoming value(s): the error variable being cleared
+					var others []ssa.Value
+					for j, e2 := range ph.Edges {
+						if j != i && !facts.IsNilConst(e2) {
+							others = append(others, e2)
 						}
 					}
-				}
-				if forgiven == nil {
-					// an error variable is cleared without its own name-unknown test in force
-					real := false
+					pred := b.Preds[i]
+					var forgiven ssa.Value
+					for _, cd := range facts.CondsAt(pred) {
+						if call, ok := cd.V.(*ssa.Call); ok && cd.Pos && facts.CalleeName(&call.Call) == "errors.Is" {
+							if errGlobalOf(call.Call.Args[1]) == "ErrNameUnknown" {
+								forgiven = call.Call.Args[0]
+							}
+						}
+					}
+					if forgiven == nil {
+						// an error variable is cleared without its own name-unknown test in force
+						real := false
+						for _, o := range others {
+							switch rootErr(o).(type) {
+							case *ssa.Extract, *ssa.Parameter:
+								real = true
+							}
+						}
+						if real {
+							c.Fail(rule, "mergeIter/forgive-only-name-unknown", ph.Pos(), "a member's listing error is cleared on a path where it is not established that this very error is name-unknown (e.g. because the OTHER member reported name-unknown): the member's real failure is dropped and the merged listing ends early without an error")
+						}
+						continue
+					}
+					n++
+					same := false
 					for _, o := range others {
-						if _, isEx := rootErr(o).(*ssa.Extract); isEx {
-							real = true
+						if rootErr(o) == rootErr(forgiven) {
+							same = true
 						}
 					}
-					if real {
-						c.Fail(rule, "mergeIter/forgive-only-name-unknown", ph.Pos(), "a member's listing error is cleared on a path where it is not established that this very error is name-unknown (e.g. because the OTHER member reported name-unknown): the member's real failure is dropped and the merged listing ends early without an error")
-					}
-					continue
+					c.Check(same, rule, "mergeIter/forgive-own-error", ph.Pos(), "a member's name-unknown clears that member's own error", "mergeIter forgives one member's name-unknown error by clearing the OTHER member's error variable: a listing of a repository known to only one member ends with a name-unknown error (or hides the other member's real error)")
 				}
-				n++
-				same := false
-				for _, o := range others {
-					if rootErr(o) == rootErr(forgiven) {
-						same = true
-					}
-				}
-				c.Check(same, rule, "mergeIter/forgive-own-error", ph.Pos(), "a member's name-unknown clears that member's own error", "mergeIter forgives one member's name-unknown error by clearing the OTHER member's error variable: a listing of a repository known to only one member ends with a name-unknown error (or hides the other member's real error)")
 			}
 		}
 	}
